@@ -282,3 +282,36 @@ Definition unmarshal_rows (sh : dshape) (strict : bool) (columns : list string) 
       rows_loop (fun row => fill_struct fs strict columns row (init_dest (unwrap_fields fs))) rows acc
   | _ => (acc, Err EUnsupported)                                                          (* 142-148 *)
   end.
+
+(* ===================================================================== part 3: the query entry points *)
+
+(* receivers: commonConn (conn.go), statement (conn.go; what Prepare returns on a conn AND on a
+   transaction session), txSession (tx.go). Every receiver has the four methods below, each as a plain
+   form delegating to its XxxCtx form with context.Background(). *)
+Inductive recv := RConn | RStmt | RTx.
+Inductive meth := MQueryRow | MQueryRowPartial | MQueryRows | MQueryRowsPartial.
+
+(* single-row methods call unmarshalRow, multi-row methods unmarshalRows *)
+Definition rows_mode (m : meth) : bool :=
+  match m with MQueryRows | MQueryRowsPartial => true | _ => false end.
+
+(* the `strict` literal each XxxCtx method hands to unmarshalRow / unmarshalRows *)
+Definition strict_flag (r : recv) (m : meth) : bool :=
+  match r, m with
+  | RConn, MQueryRow => true             (* conn.go:204 unmarshalRow(v, rows, true) *)
+  | RConn, MQueryRowPartial => false     (* conn.go:219 *)
+  | RConn, MQueryRows => true            (* conn.go:234 unmarshalRows(v, rows, true) *)
+  | RConn, MQueryRowsPartial => false    (* conn.go:249 *)
+  | RStmt, MQueryRow => true             (* conn.go:339 *)
+  | RStmt, MQueryRowPartial => false     (* conn.go:354 *)
+  | RStmt, MQueryRows => true            (* conn.go:369 *)
+  | RStmt, MQueryRowsPartial => false    (* conn.go:384 *)
+  | RTx, MQueryRow => true               (* tx.go:75 *)
+  | RTx, MQueryRowPartial => false       (* tx.go:90 *)
+  | RTx, MQueryRows => true              (* tx.go:105 *)
+  | RTx, MQueryRowsPartial => false      (* tx.go:120 *)
+  end.
+
+(* a query issued as the whole body of Transact: the body returns the query's error (or panics with it) *)
+Definition body_of_query (st : result unit) : body :=
+  mkbody [] (match st with Ok _ => ONil | Err n => OErr (EBody n) | Panic => OPanic 0 end).
